@@ -21,13 +21,15 @@ volatile int g_trap_armed, g_aborted, g_inlib;
 const char *g_cur_ctx = "";
 void (*g_abort_in_fiber)(int kind);
 void (*g_fiber_escape)(void);           /* switch back to the main context (memc) */
+int g_sched_trace[MAXSCHED];
+int g_nsched_trace;
 
 uint64_t g_probe[MAXPROBE];
 const char *g_probe_name[MAXPROBE];
 static int nprobe;
 
 static const world_t *worlds[] = {
-    &world_lists, &world_trees, &world_heap, &world_map, &world_hash, &world_vector, &world_string, &world_array, &world_mem,
+    &world_lists, &world_trees, &world_heap, &world_map, &world_hash, &world_vector, &world_string, &world_array, &world_mem, &world_memc,
 };
 #define NWORLDS (sizeof(worlds) / sizeof(worlds[0]))
 
@@ -269,6 +271,12 @@ static void crash_line(const char *what)
     wr(" "); wr(g_cur_ctx && *g_cur_ctx ? g_cur_ctx : "-");
     wr(g_inlib ? " inlib" : " harness");
     wr("\n");
+    if (g_nsched_trace > 0) {
+        int q;
+        wr("SCHED "); wrnum(g_exec_mode ? g_exec_index : g_run.run_index);
+        for (q = 0; q < g_nsched_trace; q++) { wr(" "); wrnum(g_sched_trace[q]); }
+        wr("\n");
+    }
 }
 
 static void on_signal(int sig)
@@ -498,6 +506,7 @@ static void run_plan(const world_t *w, const plan_t *p, long long index, int tra
         w->exec(p);
     }
     g_inlib = 0; g_trap_armed = 0;
+    g_atomic_hook = NULL; g_yield_hook = NULL; g_sched_point = NULL; g_free_hook = NULL; g_fiber_escape = NULL; g_abort_in_fiber = NULL;
     simheap_fail_prob(0);
     simheap_fail_global(NULL, 0, 0);
     simheap_end_run();
@@ -625,11 +634,12 @@ int main(int argc, char **argv)
     }
 
     if (strcmp(argv[1], "exec") == 0) {
-        int trace = 0, nofork = 0, k, rc;
+        int trace = 0, nofork = 0, dump_sched = 0, k, rc;
         long long n = 0;
         for (k = 2; k < argc; k++) {
             if (strcmp(argv[k], "--trace") == 0) trace = 1;
             else if (strcmp(argv[k], "--nofork") == 0) nofork = 1;
+            else if (strcmp(argv[k], "--dump-sched") == 0) dump_sched = 1;
         }
         g_exec_mode = 1;
         while ((rc = plan_read(stdin, &g_plan)) == 1) {
@@ -649,8 +659,15 @@ int main(int argc, char **argv)
             pid = fork();
             if (pid == 0) {
                 install_handlers();
+                g_nsched_trace = 0;
                 run_plan(w, &g_plan, n, trace);
                 print_result("X", n, plan_hash(&g_plan));
+                if (dump_sched) {
+                    int q;
+                    printf("SCHED %lld", n);
+                    for (q = 0; q < g_nsched_trace; q++) printf(" %d", g_sched_trace[q]);
+                    printf("\n");
+                }
                 fflush(stdout);
                 _exit(0);
             } else {
